@@ -30,6 +30,9 @@ fn lib_models(tier: Tier) -> Vec<Model> {
     v.extend(gen::m1(0).into_iter().step_by(a));
     v.extend(gen::m3(0).into_iter().step_by(b));
     v.extend(gen::m4(0).into_iter().step_by(c));
+    // clauses with several (dis)equalities on one variable, literals defined by predicates
+    v.extend(gen::m5(1).into_iter().step_by(if tier.quick() { 41 } else { 7 }));
+    v.extend(gen::m6(0).into_iter().step_by(if tier.quick() { 29 } else { 5 }));
     v
 }
 
@@ -160,7 +163,7 @@ impl Property for C20 {
         false
     }
     fn rule(&self, _tier: Tier) -> String {
-        "Library: strides of M1/M3/M4 x configuration slice (seeds 0, 1, 42; restarts and deletion forced) x {default brancher, random selectors, input order} x {complete iteration, satisfy, optimise} with a full / hinted DRCP proof, each executed twice in this process; compared: the sequence of solutions, the end result, the tap counters (conflicts, restarts, deletions, learned, id reuse), the bytes of the .drcp and of the .lits file. Command line: CNF, WCNF and FlatZinc inputs (strides of the C14/C15/C13 input sets) x seeds {1, 42} with -s (and --proof-path / --proof-type full for CNF and FlatZinc), each executed in two fresh processes; compared: stdout byte for byte (after dropping the statistic whose value is wall-clock time) and the proof files. A case = one (input, options, seed); non-trivial = the run made at least one decision or produced at least one solution. Exhaustive over the enumerated inputs/options; the hidden hash keys themselves are not enumerable (two independent draws per case).".into()
+        "Library: strides of M1/M3/M4/M5/M6 x configuration slice (seeds 0, 1, 42; restarts and deletion forced) x {default brancher, random selectors, input order} x {complete iteration, satisfy, optimise} with a full / hinted DRCP proof, each executed twice in this process; compared: the sequence of solutions, the end result, the tap counters (conflicts, restarts, deletions, learned, id reuse), the bytes of the .drcp and of the .lits file. Command line: CNF, WCNF and FlatZinc inputs (strides of the C14/C15/C13 input sets) x seeds {1, 42} with -s (and --proof-path / --proof-type full for CNF and FlatZinc), each executed in two fresh processes; compared: stdout byte for byte (after dropping the statistic whose value is wall-clock time) and the proof files. A case = one (input, options, seed); non-trivial = the run made at least one decision or produced at least one solution. Exhaustive over the enumerated inputs/options; the hidden hash keys themselves are not enumerable (two independent draws per case).".into()
     }
     fn assumptions(&self) -> Vec<String> {
         vec![
